@@ -49,6 +49,7 @@ class Sched:
         self.done_evt = threading.Event()
         self.status = None          # 'ok' | 'deadlock' | 'horizon' | 'budget'
         self.nyield = 0
+        self.ntime = 0
         self.nswitch = 0
         self.npreempt = 0
         self.cp = 0                 # choice point counter (yield points with >= 2 ready threads)
@@ -262,6 +263,14 @@ class Sched:
     # ------------------------------------------------------------------ virtual time
     def time(self):
         self.now += 1e-6
+        self.ntime += 1
+        if self.ntime > self.max_steps * 20 and not self.aborting:
+            # a loop that only reads the clock (no other yield point): count it against the step budget
+            me = self.me()
+            if me is not None and me is self.current:
+                self._finish('budget')
+                me._go.acquire()
+                raise SchedAbort()
         return self.now
 
     def sleep(self, secs):
